@@ -159,6 +159,34 @@ var snippets = []string{
 	"return function(a, b, ...) local c <close> = 1 end",
 }
 
+// validSnippets must load: lexical and syntactic corner cases of valid Lua 5.1 (+goto) programs.
+var validSnippets = []string{
+	"local s = [[a\r\nb]] return s",
+	"local s = [==[\r\nfirst line end is skipped\r\n]==] return s",
+	"local s = \"x\\\r\ny\" return s",
+	"local s = \"x\\\ny\" return s",
+	"local s = 'a\\\rb' return s",
+	"return [[\n\nleading]], [=[ ]] ]=], '\\065\\10\\0'",
+	"local t = {} pcall(function(a, b)\n  (t).x = a + b\nend, 3, 4) return t.x",
+	"local t = {}\nlocal f = function(a)\n(t)[1] = a\nend\nf(1) return t[1]",
+	"local function f(...) return ... end return (f(1, 2))",
+	"while true do while true do break end break end return 1",
+	"local function never() while true do while true do break end end end return 42",
+	"local function never() while true do repeat break until false end end return 42",
+	"local function never() repeat repeat until true until false end return 1",
+	"for i = 1, 0 do for j = 1, 0 do end end return 2",
+	"local function g() ::a:: goto a end return 3",
+	"local function g() while true do goto c ::c:: end end return 4",
+	"do local x = 1; ::l1:: x = x + 1 if x < 3 then goto l1 end end return 5",
+	"return 0x10, 0XfF, 1e2, 1E+2, 1e-2, .5, 5., 3.14, 0.0",
+	"return 1--[[c]]+--[==[d]==]2",
+	"return--\n1",
+	"a = 1; b = 2;; return a + b",
+	"local t = {f = function(self, x) return x end} return t:f(1), t.f(t, 2), t['f'](t, 3)",
+	"return #'abc', #\"\", -2 ^ 2, 2 ^ 3 ^ 2, not nil == true, 1 .. 2 == '12'",
+	"local s = '' for i = 1, 3 do s = s .. i end return s",
+}
+
 const lexAlphabet = "abcxyz_019 \t\n\r.,;:()[]{}=<>~+-*/%^#'\"\\eExX"
 
 var lexWords = []string{"and", "break", "do", "else", "elseif", "end", "false", "for", "function", "goto", "if", "in", "local", "nil", "not", "or",
@@ -419,6 +447,12 @@ func (e *Engine) Run(t *core.Tape, cfg *core.Config, st *core.Stats) *core.Viola
 		src, srcName, pinned = c.data, c.name, c.pinned
 		valid = pinned != nil && pinned.Loads
 	case 2:
+		if t.Bool() {
+			i := t.Choose(len(validSnippets))
+			src, srcName = validSnippets[i], fmt.Sprintf("validsnippet%d", i)
+			valid = true
+			break
+		}
 		i := t.Choose(len(snippets))
 		src, srcName = snippets[i], fmt.Sprintf("snippet%d", i)
 	case 3: // random bytes
@@ -617,6 +651,47 @@ func compileEdgeProgram(t *core.Tape) string {
 		"while true do goto out%d end ::out%d::",
 		"return",
 		"return 1, 2",
+	}
+	if t.Choose(4) == 0 {
+		// degenerate loop nests: only control statements (jump-to-jump chains and cycles in the code generator)
+		var gen func(d int) string
+		lbl := 0
+		gen = func(d int) string {
+			var sb strings.Builder
+			k := t.Choose(3)
+			for i := 0; i <= k; i++ {
+				c := t.Choose(8)
+				if d >= 4 && c < 4 {
+					c = 4 + t.Choose(4)
+				}
+				switch c {
+				case 0:
+					sb.WriteString("while true do " + gen(d+1) + " end ")
+				case 1:
+					sb.WriteString("repeat " + gen(d+1) + " until " + []string{"false", "true", "c0"}[t.Choose(3)] + " ")
+				case 2:
+					sb.WriteString("for i = 1, 0 do " + gen(d+1) + " end ")
+				case 3:
+					sb.WriteString("if c0 then " + gen(d+1) + " else " + gen(d+1) + " end ")
+				case 4:
+					if d > 0 {
+						sb.WriteString("do break end ")
+					}
+				case 5:
+					lbl++
+					sb.WriteString(fmt.Sprintf("do goto l%d end ::l%d:: ", lbl, lbl))
+				case 6:
+					sb.WriteString("do end ")
+				case 7:
+					if d > 0 && t.Bool() {
+						sb.WriteString("break ")
+						return sb.String()
+					}
+				}
+			}
+			return sb.String()
+		}
+		return "local c0 = 0\nlocal function never()\n" + gen(0) + "\nend\nreturn 1\n"
 	}
 	n := t.Choose(len(payloads) + 3)
 	var payload string
